@@ -15,7 +15,7 @@ def classify(inp, obs, tags):
 PROP = dict(
     engines=[dict(
         name="reads", classify=classify,
-        quick=dict(cases=160, shards=8, profiles=["debug", "release"]),
+        quick=dict(cases=120, shards=6, profiles=["debug", "release"]),
         thorough=dict(cases=6000, shards=16, profiles=["debug", "release"]),
     )],
     rule="one case = one real vector (BytesVec<u64>, BytesVec<5-byte non-native element>, ZeroCopyVec<u64>, PcoVec/LZ4Vec/"
@@ -34,7 +34,6 @@ PROP = dict(
         "the state fed to the model is the harness's dump of the real vector (region bytes read through rawdb, stored_len, pushed, "
         "holes, updated, page index); page contents of compressed pages are taken from the harness's committed reference "
         "(raw pages are decoded and cross-checked), so losslessness of the compressors (C07) is assumed by the model level only",
-        "whether the `updated` BTreeMap has an allocated root (BTreeMap::range checks its bounds only then) is tracked by the harness from the operations performed",
         "a read that produces more than 4e6 tap events is aborted and reported as non-terminating",
     ],
     assumptions=[
@@ -54,13 +53,16 @@ ENGINES = [
 TEXT = dict(
     design_ref="DESIGN.md section 4, C20",
     technique="Coq proof that every byte range a read path fetches lies inside the region + monitored execution with an access tap",
-    text=("Proof: Coq theorems C20_* (Props/C20.v): every read-path model returns, besides its result, the list of byte ranges "
-          "it fetches relative to the region start; for every well-formed state (including stored_len above the on-disk length "
-          "after a rollback) and every request, each range ends at or below the region length; paths where the faithful model "
-          "refutes this (read_at_once on a buffered index, lean read-only clones after a rollback) keep the full statement with a "
-          "*_refuted witness. Monitored execution: the real read paths run with taps in Reader::unchecked_read, the raw pointer "
-          "reads, the memcpy sites and the file-IO sources; every tapped access is compared with the region's own length and "
-          "with the model's access list."),
+    text=("Proof: Coq theorems C20_* (Props/C20.v): every read-path model returns, besides its result, the byte ranges it "
+          "fetches relative to the region start; for every well-formed raw-vector state (including stored_len above the "
+          "on-disk length after a rollback, where the proof uses that every index in [real, stored) is an updated key or a "
+          "hole) and every request, each range of read_into_at / fold_range_at / try_fold_range_at (all back-ends, early exit "
+          "included), the index-addressed paths, the cursor and the sorted read ends at or below the region length; for "
+          "compressed vectors every fetch is a page's byte range or a refill of consecutive pages inside the region. Paths "
+          "that ignore the overlay by design (VecReader, lean read-only clones) are proved for states without a pending "
+          "rollback overlay and refuted beyond (known rollback-of-truncation class). Monitored execution: the real read paths "
+          "run with taps in Reader::unchecked_read, the raw pointer reads, the memcpy sites and the file-IO sources; every "
+          "tapped access is compared with the region's own length and with the model's access list."),
     note=("Trusted: Coq kernel; extraction and the OCaml driver; the Rust harness and the add-only taps under cfg(anydb_verif). "
           "`Reader::prefixed` hands out a slice to the end of the map by design and is judged by what its consumers read."),
 )
